@@ -143,10 +143,16 @@ def coq_make(targets, timeout=1500, force=()):
 
 
 def build_harness(tags="verif", race=False):
+    """go build of every harness command against REPO's working tree (module replace via -modfile)."""
     os.makedirs(BIN, exist_ok=True)
     h = os.path.join(VERIF, "harness")
-    shutil.copy(os.path.join(REPO, "go.sum"), os.path.join(h, "go.sum"))
-    cmd = ["go", "build", "-tags", tags]
+    mod = os.path.join(BUILD, "harness.go.mod")
+    text = open(os.path.join(h, "go.mod")).read().replace("=> /repo", "=> " + REPO)
+    if not os.path.exists(mod) or open(mod).read() != text:
+        with open(mod, "w") as f:
+            f.write(text)
+    shutil.copy(os.path.join(REPO, "go.sum"), os.path.join(BUILD, "harness.go.sum"))
+    cmd = ["go", "build", "-modfile", mod, "-tags", tags]
     outdir = BIN
     if race:
         cmd.append("-race")
